@@ -7,7 +7,7 @@
 // targets a local of the function (or is replaced by a constant), must be accepted.
 #include "common.h"
 
-static const char* GLOBALS = "int g; int arr[3]; struct { int f; } rec; const int K = 2; chan c[4]; clock x;\n";
+static const char* GLOBALS = "int g; int g2; bool gb; int arr[3]; struct { int f; } rec; const int K = 2; chan c[4]; clock x;\n";
 
 // direct write expressions on global state
 static const char* DIRECT[] = {"g = 1", "g := 1", "g += 1", "g -= 1", "g *= 1", "g /= 1", "g %= 1", "g |= 1", "g &= 1", "g ^= 1", "g <<= 1", "g >>= 1",
@@ -47,8 +47,8 @@ static std::string body(int form, const std::string& X)
     return "";
 }
 
-enum { CX_GUARD, CX_INV, CX_SYNC, CX_SELECT, CX_INIT, CX_ARRSIZE, CX_RANGE, CX_ARG, CX_QUANT, CX_ASSERT, CX_PROB, CX_LOCALINIT, CX_QUERY, CX_SUM, CX_REFARG, NCX };
-static const char* CXNAME[] = {"guard", "invariant", "sync", "select", "initialiser", "array-size", "range-bound", "instantiation-arg", "quantified-body", "assert", "probability", "template-local-initialiser", "query", "sum-body", "reference-instantiation-arg"};
+enum { CX_GUARD, CX_INV, CX_SYNC, CX_SELECT, CX_INIT, CX_ARRSIZE, CX_RANGE, CX_ARG, CX_QUANT, CX_ASSERT, CX_PROB, CX_LOCALINIT, CX_QUERY, CX_SUM, CX_REFARG, CX_UPD_FORALL, CX_UPD_EXISTS, CX_UPD_SUM, CX_FUN_FORALL, CX_FUN_SUM, NCX };
+static const char* CXNAME[] = {"guard", "invariant", "sync", "select", "initialiser", "array-size", "range-bound", "instantiation-arg", "quantified-body", "assert", "probability", "template-local-initialiser", "query", "sum-body", "reference-instantiation-arg", "forall-body-in-update", "exists-body-in-update", "sum-body-in-update", "forall-body-in-function", "sum-body-in-function"};
 
 // whole model with int-valued expression E placed in context cx; `funcs` are the declarations E needs
 static std::string model(int cx, const std::string& funcs, const std::string& E)
@@ -58,6 +58,9 @@ static std::string model(int cx, const std::string& funcs, const std::string& E)
     if (cx == CX_ARRSIZE) s += "int a5[" + E + "];\n";
     if (cx == CX_RANGE) s += "int[0, " + E + "] v6;\n";
     if (cx == CX_ASSERT) s += "void h() { assert((" + E + ") > 0); }\n";
+    // quantifier bodies stay side-effect free even where the enclosing construct may write (a function body, an update)
+    if (cx == CX_FUN_FORALL) s += "bool h2() { return forall (k : int[0,1]) (" + E + ") > 0; }\n";
+    if (cx == CX_FUN_SUM) s += "int h3() { int l3; l3 = sum (k : int[0,1]) (" + E + "); return l3; }\n";
     s += "process Q(int p) { state S0; init S0; }\nprocess QR(int &rp) { state S0; init S0; }\n";
     s += "process P() {\n";
     if (cx == CX_LOCALINIT) s += " int v11 = " + E + ";\n";
@@ -69,6 +72,9 @@ static std::string model(int cx, const std::string& funcs, const std::string& E)
     if (cx == CX_QUANT) s += " guard forall (k : int[0,1]) (" + E + ") > 0;";
     if (cx == CX_SUM) s += " guard (sum (k : int[0,1]) (" + E + ")) > 0;";
     if (cx == CX_SYNC) s += " sync c[" + E + "]!;";
+    if (cx == CX_UPD_FORALL) s += " assign gb = forall (k : int[0,1]) (" + E + ") > 0;";
+    if (cx == CX_UPD_EXISTS) s += " assign gb = exists (k : int[0,1]) (" + E + ") > 0;";
+    if (cx == CX_UPD_SUM) s += " assign g2 = 1 + sum (k : int[0,1]) (" + E + ");";
     s += " }, A -> BP { }, BP -> B {";
     if (cx == CX_PROB) s += " probability " + E + ";";
     s += " };\n}\n";
@@ -98,13 +104,13 @@ static void verdicts(int cx, const std::string& wf, const std::string& we, const
     vf_reach("end");
 }
 
-extern "C" void harness_direct()  /* vf: bounds=20_direct_write_expressions(=,:=,10_compound,pre/post_inc/dec,array_element,struct_field)_x_15_contexts */
+extern "C" void harness_direct()  /* vf: bounds=20_direct_write_expressions(=,:=,10_compound,pre/post_inc/dec,array_element,struct_field)_x_20_contexts */
 {
     int cx = vf_pick("!context", NCX), w = vf_pick("!write", NDIRECT);
     verdicts(cx, "", DIRECT[w], "", cx == CX_REFARG ? "g" : "K");
 }
 
-extern "C" void harness_function_writer()  /* vf: bounds=writer_function:17_statement_forms_x_3_inner_writes(quick)/8(thorough)_x_14_contexts;twin_writes_a_local */
+extern "C" void harness_function_writer()  /* vf: bounds=writer_function:17_statement_forms_x_3_inner_writes(quick)/8(thorough)_x_19_contexts;twin_writes_a_local */
 {
     int cx = vf_pick("!context", NCX), form = vf_pick("!form", NFORM), in = vf_pick("!inner", NINNER);
     vf_assume(cx != CX_REFARG);   // a call is not an l-value
@@ -113,7 +119,7 @@ extern "C" void harness_function_writer()  /* vf: bounds=writer_function:17_stat
     verdicts(cx, "int w() {" + body(form, INNER[in][0]) + " }\n", "w()", "int w() {" + body(form, twin) + " }\n", "w()");
 }
 
-extern "C" void harness_call_chain()  /* vf: bounds=call_chain_depth_1..3_above_a_writer;chain_link_in_3_positions(statement,return_value,argument);write_through_reference_parameter_depth_0..2;14_contexts */
+extern "C" void harness_call_chain()  /* vf: bounds=call_chain_depth_1..3_above_a_writer;chain_link_in_3_positions(statement,return_value,argument);write_through_reference_parameter_depth_0..2;19_contexts */
 {
     int cx = vf_pick("!context", NCX), depth = vf_range("!depth", 1, 3), link = vf_pick("!link", 3), viaref = vf_pick("!viaref", 2);
     vf_assume(cx != CX_REFARG);
